@@ -895,6 +895,11 @@ impl<TokenIter: Iterator<Item = Result<Token>>> Parser<TokenIter> {
             }
             TokenData::Identifier(symbol) => DatumBody::Symbol(symbol.clone()).locate(location),
             TokenData::Primitive(p) => DatumBody::Primitive(p.clone()).locate(location),
+            // 'x inside a vector or directly after another quote, as in a list
+            TokenData::Quote => {
+                self.advance(1)?;
+                self.parse_quoted()?
+            }
             other => return located_error!(SyntaxError::UnexpectedToken(other.clone()), location),
         })
     }
